@@ -14,7 +14,7 @@ META = {
                   "extensions/custom/spec_version x 19 junk values of every JSON kind or deletion, and 35 nested sites (embedded objects, "
                   "extensions, observed-data members, bundle members), through parse with named version, parse with detection and parse of JSON "
                   "text: only STIXError/ValueError/TypeError may escape and the registries must be unchanged.",
-    "level_text_more": "Also: junk that is hostile to message formatting ('{x}', '%s', keys '{0.x}', '{1}', '%(a)s'); an identity carrying combinations of three registered extensions (two toplevel-property) x 20 slots x junk, with a registry snapshot that includes every class's property tables and a behavioural check afterwards. Values nested deeper than the recursion limit, as object and as JSON text.",
+    "level_text_more": "Also: junk that is hostile to message formatting ('{x}', '%s', keys '{0.x}', '{1}', '%(a)s'); an identity carrying combinations of three registered extensions (two toplevel-property) x 20 slots x junk, with a registry snapshot that includes every class's property tables and a behavioural check afterwards. Values nested deeper than the recursion limit, as object and as JSON text. Rounds 5-6: every ordered pair of timestamp / integer slots in relation (all classes incl. 2.0 observables, 2-4 routes); refused MemoryStore additions leave the store unchanged and printable; 23 versioning change sets; marking definitions that also carry an extension; paired faults in classes with constructor logic of their own; caller-supplied reference scopes of 18 shapes; stored files of 18 contents.",
     "level_note": "Selector-enumerated over tables for (ii) (CrossHair chooses the case, the real code runs concretely); termination is bounded by "
                   "the per-path timeout (a timeout is inconclusive). Two simultaneous corruptions and deeper nesting are outside the claim.",
     "technique": "CrossHair symbolic execution of parse on junk-injected documents (symbolic junk content; enumerated class x slot x junk tables); "
